@@ -4,6 +4,7 @@ Monitor shape: icontract postconditions on the real serialize_value /
 deserialize_value (plain-JSON result, idempotence) evaluated on every call,
 including the calls RAMEmitter makes, plus a typed reference model of the
 expected round-trip result for generated value trees."""
+import copy
 import math
 import struct
 
@@ -21,7 +22,7 @@ RULE = ('value trees (depth <=4, thorough <=5) built from JSON recipes over ints
         'RAMEmitter; non-trivial = tree with >=3 nodes containing a quantity/unit/numpy/set/tuple '
         'value or a rejection case; distinct = distinct recipe')
 PLAN = {'quick': {'n': 40000, 'min_cases': 2000}, 'thorough': {'n': 600000, 'min_cases': 50000}}
-REQUIRED_ORACLES = ['roundtrip', 'plain_json', 'idempotent', 'rejects', 'contract.serialize.plain_json',
+REQUIRED_ORACLES = ['roundtrip', 'serialized_kept', 'plain_json', 'idempotent', 'rejects', 'contract.serialize.plain_json',
                     'emitter_roundtrip']
 ANCHORS = ['vivarium.core.serialize:serialize_value', 'vivarium.core.serialize:deserialize_value',
            'vivarium.core.serialize:UnitsSerializer.deserialize',
@@ -361,10 +362,14 @@ def run(spec):
             except Exception as e:
                 V.check('idempotent', False, ('second serialization raised', type(e).__name__, str(e)[:200]))
             try:
+                s_before = copy.deepcopy(s)
                 d = S.deserialize_value(s)
                 V.check('roundtrip', same(expect(x, env), d, env),
                         lambda: ('deserialize(serialize(x)) != x', repr(x)[:300], repr(s)[:300], repr(d)[:300]),
                         mechanism=None)
+                # the serialized tree is still the plain JSON data it was (it can be deserialized or stored again)
+                V.check('serialized_kept', json_plain(s) and _eqjson(s, s_before),
+                        lambda: ('deserialize_value changed the serialized tree it was given', repr(s_before)[:300], repr(s)[:300]))
             except Exception as e:
                 V.check('roundtrip', False, ('deserialize_value raised', type(e).__name__, str(e)[:160],
                                              repr(s)[:300]))
@@ -379,6 +384,12 @@ def run(spec):
                     des = em.get_data_deserialized()
                     V.check('emitter_roundtrip', same(expect(row, env), des[1.5], env),
                             lambda: ('get_data_deserialized != emitted row', repr(row)[:300], repr(des)[:300]))
+                    raw2 = em.get_data()
+                    V.check('emitter_plain', json_plain(raw2[1.5]),
+                            lambda: ('RAMEmitter history is no longer plain JSON after get_data_deserialized()', repr(raw2)[:300]))
+                    des2 = em.get_data_deserialized()
+                    V.check('emitter_roundtrip', same(expect(row, env), des2[1.5], env),
+                            lambda: ('second get_data_deserialized != emitted row', repr(row)[:300], repr(des2)[:300]))
                 except Exception as e:
                     V.check('emitter_roundtrip', False, ('emitter path raised', type(e).__name__, str(e)[:200],
                                                          repr(row)[:300]))
